@@ -1,3 +1,4 @@
 import CohdlVerif.Model.DriverLoop
--- model driver of property C07 (stub: no model entry points yet)
-def main : IO Unit := CohdlVerif.driverLoop (fun _ => "bad-op")
+import CohdlVerif.Model.C07
+-- model driver of property C07:  `check kinds <chars> {ctx ..} {inst ..}` -> `<fixed ok|rej> <unfixed ok|rej> <drivers> <users>`
+def main : IO Unit := CohdlVerif.driverLoop CohdlVerif.C07.handle
